@@ -17,6 +17,10 @@ var commonAssumptions = []string{
 }
 
 var propMeta = map[string]PropMeta{
+	"C01": {
+		NotCovered: "Concurrency of several calls in flight is covered only through the per-function contracts (each call's entry in a pending table is its own key; lock discipline under C20/C07); that no frame is dropped when the legacy SSE event queue is full is not proved (the code drops it and the call then ends with its context); string ids are compared by their text.",
+		Assumptions: append([]string{"IEEE 754: float64(n) is exact and truncates back to n for |n| <= 2^53", "fmt.Sprintf(\"%v\", n) of an int64 prints strconv.FormatInt(n, 10); math.Trunc/math.Abs as specified in std.spec", "the stdio client transport returns a non-nil raw message when it returns no error (trusted contract)"}, commonAssumptions...),
+	},
 	"C05": {
 		NotCovered: "What a successful write to the stream means below sseutil.WriteEvent (net/http buffering, the peer actually reading it); ordering between concurrent senders beyond the per-stream write lock (C09); the legacy SSE server's notification queue and the stdio server (single session) are not under contract for routing; that the filter callback is side-effect free is assumed.",
 		Assumptions: append([]string{"ghost instrumentation: sendattempts counts calls of httpServerHandler.sendNotification, sendoks those that returned nil; filtercalls/selected count the filter callback's calls and true results", "pendingRequestKey is injective in the session id as long as session ids contain no NUL byte (they are UUID strings)", "session.GetID() is stable for a session"}, commonAssumptions...),
